@@ -5,6 +5,15 @@ import os
 
 V = os.path.dirname(os.path.dirname(os.path.abspath(__file__)))
 CHECKS = {
+    'C07': ('reference state fold over the recorded uplink/downlink history compared field by field with bidib_get_state() and every single-entity getter at sampled snapshots; generated configurations x node trees x histories of state-bearing messages with full value ranges, interleaved with drive / DCC-accessory commands',
+            'reference fold vlib/statemodel.py; undocumented initial values of DCC accessories unconstrained until first written; gcc ASan/UBSan',
+            'runtime monitoring: reference-model oracle over recorded message history vs. getter snapshots + ASan/UBSan'),
+    'C08': ('per-snapshot consistency (presence/position/orientation vs. segment address lists) after every processed report plus the reference fold; concurrent part: known state sequence S0..Sn (single receiver, one message per packet) and call/return-stamped getter results that must equal some Si in the window, train data never older than segment data (asan+tsan)',
+            'processing of packet j lies between its rxc/rxdone events; reference fold; perturbation at lock operations',
+            'runtime monitoring: history-vs-model atomicity oracle over stamped getter results + snapshot invariants + TSan'),
+    'C09': ('model encoder from the abstract configuration: per high-level command the return value and the decoded wire up to the next quiescent point (every id x aspect, every speed, every function bit with history, unknown/disconnected/NULL/out-of-range), snapshots against the reference fold after error commands',
+            'encoder in vlib/props/C09.py written from header docs and bidib_messages.h; accessory numbers/aspect values in 0..127',
+            'runtime monitoring: spec-encoder oracle over decoded wire and getter snapshots + ASan/UBSan'),
     'C04': ('reference flow-control model with the stall set over address prefixes compared with the wire at a checkpoint after every step (nested stalls in both orders, repeated notices, unstall without stall, budget interaction); stress variant with sender threads after a processed stall notice (asan+tsan)',
             'reference model vlib/flow.py; a stall notice counts from the quiescent point after it was fed',
             'runtime monitoring: reference-model oracle over recorded wire/uplink history + stress under TSan'),
